@@ -151,12 +151,20 @@ def translate_format_default(src):
                 and isinstance(e.func.value, ast.Name) and e.func.value.id == "json" and len(e.args) == 1 and not e.keywords:
             tags.append("jsonDumps")
             return "some (Prims.jsonDumps %s)" % term(e.args[0])
-        # print_ast(ast_node_from_value(x, t))
+        # print_ast(ast_node_from_value(x, t[, numeric_strings=<bool>]))
         if isinstance(e, ast.Call) and isinstance(e.func, ast.Name) and e.func.id == "print_ast" and len(e.args) == 1 \
                 and not e.keywords and isinstance(e.args[0], ast.Call) and isinstance(e.args[0].func, ast.Name) \
                 and e.args[0].func.id == "ast_node_from_value" and len(e.args[0].args) == 2:
-            tags.append("printAst")
-            return "(Prims.printAstOfValue s %s %s)" % (term(e.args[0].args[0]), term(e.args[0].args[1]))
+            inner = e.args[0]
+            strict = False
+            for kw in inner.keywords:
+                if kw.arg == "numeric_strings" and isinstance(kw.value, ast.Constant) and isinstance(kw.value.value, bool):
+                    strict = not kw.value.value
+                else:
+                    raise Shape("keyword of ast_node_from_value: " + str(kw.arg))
+            tags.append("printAstStrict" if strict else "printAst")
+            return "(Prims.%s s %s %s)" % ("printAstOfValueStrict" if strict else "printAstOfValue",
+                                           term(inner.args[0]), term(inner.args[1]))
         raise Shape("returned expression " + ast.dump(e))
 
     def block(stmts, after):
@@ -171,6 +179,12 @@ def translate_format_default(src):
             return block(rest, after)
         if isinstance(s, ast.Return):
             return value(s.value)
+        # try: <block> except (ValueError, TypeError) [as e]: raise <Error>(...)   — the model's `none` stands for the
+        # exceptions of ast_node_from_value, and for the field error they are turned into
+        if isinstance(s, ast.Try) and not s.orelse and not s.finalbody and s.handlers and all(
+                len(h.body) == 1 and isinstance(h.body[0], ast.Raise) for h in s.handlers):
+            tags.append("try-raise")
+            return block(s.body, block(rest, after) if rest or after is not None else None)
         if isinstance(s, ast.Assign) and len(s.targets) == 1 and isinstance(s.targets[0], ast.Name):
             env[s.targets[0].id] = term(s.value)
             return block(rest, after)
@@ -552,10 +566,10 @@ def special_json_defaults():
     input-object default and as an input field's own default)."""
     from py_gql.schema import (Argument, Field, InputField, InputObjectType, Int, ListType, NonNullType, ObjectType,
                                ScalarType, Schema)
-    js = ScalarType("Json", serialize=lambda v: v, parse=lambda v: v)
+    js = ScalarType("Json", serialize=lambda v: v, parse=lambda v: v, parse_literal=L.typed_parse_literal)
     inp = InputObjectType("JsonIn", [InputField("j", js, default_value={"deep": [{"k": None}, []]}), InputField("n", Int)])
     return Schema(ObjectType("Query", [Field("search", Int, [
-        Argument("filter", js, default_value={"tags": ["a", "007"], "limit": 10, "on": True, "none": None, "sub": {"x": []}}),
+        Argument("filter", js, default_value={"tags": ["a", "007", "7", "1.5"], "limit": 10, "on": True, "none": None, "sub": {"x": [], "n": "42"}}),
         Argument("empty", js, default_value={}),
         Argument("emptyList", NonNullType(js), default_value=[]),
         Argument("tup", js, default_value=(1, "two")),
@@ -1060,6 +1074,44 @@ def oracle_null_reason(ctx):
                      {"check": "null-reason", "member": what})
 
 
+INEXPRESSIBLE = [{"content-type": "text/plain"}, {"": 1}, {1: 2}, {"a": {"b c": 1}}, [{"x-y": 1}], {"__ok": 1, "9lives": 2}]
+
+
+def oracle_inexpressible_defaults(ctx):
+    """Ledger I12. A dict default of a JSON-like scalar whose keys are not Names (header-like keys, non-str keys, nested)
+    has no object-literal spelling. Introspection must still ANSWER: `defaultValue` of that input value is null with a
+    field error at its path, and everything else is reported as for the same schema without those defaults."""
+    from py_gql.schema import Argument, Field, Int, ListType, ObjectType, ScalarType, Schema
+
+    def build(with_bad):
+        js = ScalarType("Json", serialize=lambda v: v, parse=lambda v: v)
+        args = [Argument("good", js, default_value={"ok_key": [1, "x"]}), Argument("plain", Int, default_value=3)]
+        for i, v in enumerate(INEXPRESSIBLE):
+            t = ListType(js) if isinstance(v, list) else js
+            args.append(Argument("bad%d" % i, t, default_value=v) if with_bad else Argument("bad%d" % i, t))
+        return Schema(ObjectType("Query", [Field("f", Int, args)]))
+    schema, twin = build(True), build(False)
+    st0, r0 = L.execute(twin, std_query(), "blocking")
+    for cfg in ("blocking", "generic"):
+        ctx.count()
+        st, r = L.execute(schema, std_query(), cfg)
+        ctx.nontrivial(("inexpressible-default", cfg))
+        if st != "ok":
+            ctx.fail("inexpressible-default:no-response:raises-%s" % r,
+                     "a default without a literal spelling makes the standard introspection query raise %s: no response at all" % r,
+                     {"check": "inexpressible-defaults", "config": cfg})
+            continue
+        paths = sorted(json.dumps(e.get("path")) for e in r.get("errors", []))
+        data = r.get("data")
+        if not data or st0 != "ok" or data != r0.get("data"):
+            ctx.fail("inexpressible-default:rest-of-schema-differs", "apart from the inexpressible defaults the result should be that of the schema without them",
+                     {"check": "inexpressible-defaults", "config": cfg, "path": L.first_diff(r0.get("data"), data) if data else "/"})
+        want = len(INEXPRESSIBLE)
+        if len(paths) != want or not all(p.endswith('"defaultValue"]') for p in paths):
+            ctx.fail("inexpressible-default:field-errors", "expected one field error per inexpressible default, at its defaultValue path; got %s" % paths[:4],
+                     {"check": "inexpressible-defaults", "config": cfg, "errors": paths})
+
+
 def oracle_directive_locations(ctx):
     """Ledger I5. Every directive location the PARSER accepts in a directive definition (and `Directive(...)`
     accepts in code) must be introspectable: `__schema { directives { locations } }` reports it, nothing raises."""
@@ -1147,6 +1199,7 @@ def run(ctx):
     try:
         oracle_empty_reason(ctx)
         oracle_null_reason(ctx)
+        oracle_inexpressible_defaults(ctx)
         oracle_directive_locations(ctx)
         oracle_numeric_strings(ctx)
         _run(ctx)
@@ -1192,10 +1245,10 @@ def replay(ctx, data):
         sub = Ctx2(ctx)
         C15_history.one_history(sub, sys.modules[__name__], inp["case"], inp["kind"], inp["hseed"])
         return not any(f["signature"] == data.get("signature") for f in sub.found)
-    if inp.get("check") in ("directive-locations", "numeric-strings", "null-reason"):
+    if inp.get("check") in ("directive-locations", "numeric-strings", "null-reason", "inexpressible-defaults"):
         sub = Ctx2(ctx)
         {"directive-locations": oracle_directive_locations, "numeric-strings": oracle_numeric_strings,
-         "null-reason": oracle_null_reason}[inp["check"]](sub)
+         "null-reason": oracle_null_reason, "inexpressible-defaults": oracle_inexpressible_defaults}[inp["check"]](sub)
         return not any(f["signature"] == data.get("signature") for f in sub.found)
     if inp.get("check") == "empty-reason":
         sub = Ctx2(ctx)
